@@ -812,8 +812,13 @@ func writeEvidence(c *CheckCfg, tier string, seed int, sts []*symx.ExploreStats,
 		"violations":  violations,
 	}
 	b, _ := json.MarshalIndent(ev, "", " ")
-	os.MkdirAll(filepath.Join(verifDir, "evidence"), 0o755)
-	os.WriteFile(filepath.Join(verifDir, "evidence", c.ID+".json"), b, 0o644)
+	evDir := filepath.Join(verifDir, "evidence")
+	if repoDir != "/repo" {
+		// a run against another checkout (seeded-change tests) must not overwrite the evidence of /repo
+		evDir = filepath.Join(os.TempDir(), "gosmt-evidence-other-checkout")
+	}
+	os.MkdirAll(evDir, 0o755)
+	os.WriteFile(filepath.Join(evDir, c.ID+".json"), b, 0o644)
 }
 
 func max1(n int) int {
